@@ -63,6 +63,39 @@ class DedupTable:
         return REVISIT_ID if url in self.seen else None
 
 
+def keeps_alive(e, opts=(True, False)):
+    """after this exchange the connection goes back to the pool open"""
+    m = e['msg']
+    return (opts[0] and not opts[1] and not e['eof'] and not e['surplus'] and m.framing in ('length', 'chunked', 'none')
+            and m.conn_close is None and m.version == 'HTTP/1.1' and b'HTTP/1.1' in m.head[:9] and m.coding != 'gzip-bad')
+
+
+def add_dying_connections(rng, exs, opts=(True, False), p=0.5):
+    """a reused keep-alive connection that dies part-way through the NEXT response head (after 1..k
+    bytes); the server answers a repeated request normally.  The exchange fails; it has no response
+    record, and no later record holds the fragment."""
+    for k in range(1, len(exs)):
+        e = exs[k]
+        if keeps_alive(exs[k - 1], opts) and e.get('req_body') is None and not e['surplus'] and rng.random() < p:
+            head = e['msg'].head
+            e['die_after'] = rng.choice([1, 2, 9, len(head) // 2, max(1, len(head) - 3), max(1, len(head) - 1)])
+            e['die_after'] = max(1, min(e['die_after'], len(head) - 1))
+    return exs
+
+
+def fixed_die_sequences():
+    out = []
+    for n in (1, 5, 12, 17, 30, 37):
+        exs = []
+        for k, body in enumerate((b'first', b'second', b'third')):
+            m = c08._mk(b'HTTP/1.1 200 OK\r\nContent-Length: %d\r\n\r\n' % len(body), body)
+            exs.append({'segs': [m.message], 'eof': False, 'method': 'GET', 'version': 'HTTP/1.1', 'path': '/p%d' % k, 'msg': m,
+                        'surplus': b'', 'marker': b'', 'dedup': False})
+        exs[1]['die_after'] = n
+        out.append((exs, (True, False)))
+    return out
+
+
 def gen_exchanges(rng, opts=(True, False), dedup=False):
     exs = c08.gen_sequence(rng, opts)
     for e in exs:
@@ -103,7 +136,7 @@ def stream_warc(ctx, seqs):
                     'exchanges': [{'segs': e['segs'], 'eof': e['eof'], 'method': e['method'], 'version': e['version'],
                                    'path': e['path'], 'msg': e['msg'].case(), 'surplus': e['surplus'],
                                    'req_body': e.get('req_body'), 'req_fields': e.get('req_fields', []),
-                                   'dedup': bool(e.get('dedup'))} for e in exs]}
+                                   'dedup': bool(e.get('dedup')), 'die_after': e.get('die_after')} for e in exs]}
             try:
                 records = H.read_warc(path)
             except H.WarcFormatError as err:
@@ -123,7 +156,10 @@ def stream_warc(ctx, seqs):
             for e, r in zip(exs, results):
                 x = r['x']
                 data = b''.join(e['segs'])
-                toks += [enc(e['method']), enc(e['version']), 'T' if e['eof'] else 'F', enc(data),
+                dying = bool(e.get('die_after')) and x.outcome != 'ok'
+                if dying:
+                    data = data[:e['die_after']]        # what reached the client before the connection died
+                toks += [enc(e['method']), enc(e['version']), 'T' if e['eof'] or dying else 'F', enc(data),
                          '-' if not H.sched_of(x.calls) else '.'.join('%x' % s for s in H.sched_of(x.calls)),
                          ','.join(('o' + enc(v)) if k == 'ok' else ('e' + v) for k, v in x.declog) or '~']
                 # field order of the real request: caller's fields, Content-Length (set with the
@@ -199,6 +235,13 @@ def check_warc(ctx, case, exs, results, recs, opts=(True, False)):
                      % (k, qb[:80], r['requests'][0][:80]))
         if qf.get('warc-target-uri') != uri:
             ctx.fail('record-target', 'begin_request', case, 'exchange %d: request record for %r, requested %r' % (k, qf.get('warc-target-uri'), uri))
+        if e.get('die_after') and x.outcome == 'ok' and i < len(recs) and recs[i][0].get('warc-type') in ('response', 'revisit') \
+                and recs[i][1] != e['msg'].message:
+            ctx.fail('response-block-not-wire', 'Session.start', case,
+                     'exchange %d: the reused connection died after %d bytes of the response head and the request was answered on a second '
+                     'attempt; the response record has %d bytes (%r..), one answer has %d bytes: it holds bytes of two answers'
+                     % (k, e['die_after'], len(recs[i][1]), recs[i][1][:40], len(e['msg'].message)))
+            return
         if x.outcome != 'ok':
             if i < len(recs) and recs[i][0].get('warc-type') in ('response', 'revisit'):
                 ctx.fail('record-sequence', 'HTTPWARCRecorderSession', case, 'exchange %d did not complete (%s) but has a response record' % (k, x.outcome))
@@ -893,7 +936,10 @@ def run(ctx):
     seqs = []
     for i in range(ctx.scale(250, 3000)):
         opts = H.OPTS[1 + (i // 4) % 3] if i % 4 >= 2 else (True, False)   # half default, half spread over the other three
-        seqs.append((gen_exchanges(wrng, opts, dedup=(i % 5) in (1, 2)), opts))      # 40% of the sequences run with --warc-dedup
+        exs = gen_exchanges(wrng, opts, dedup=(i % 5) in (1, 2))
+        if i % 3 == 0:
+            add_dying_connections(wrng, exs, opts)
+        seqs.append((exs, opts))      # 40% of the sequences run with --warc-dedup
     # ... and with the client wired by the application's own set-up tasks (argv): what a
     # --no-http-keep-alive / --ignore-length / ... run archives
     arng = ctx.subrng('app')
@@ -905,7 +951,7 @@ def run(ctx):
             e['path'] = '/p%d' % k
             e['dedup'] = False
         app.append((exs, o, wiring))
-    stream_warc(ctx, fixed_dedup_sequences() + seqs + app)
+    stream_warc(ctx, fixed_dedup_sequences() + fixed_die_sequences() + seqs + app)
     stream_overlap(ctx, overlap_cases(ctx.subrng('overlap'), ctx.scale(60, 1500)))
     stream_appcrawl(ctx, appcrawl_cases(ctx.subrng('appcrawl'), ctx.scale(8, 200)))
     stream_interleave(ctx, interleave_cases(ctx.subrng('interleave'), ctx.scale(60, 1500)))
